@@ -18,9 +18,19 @@ OUTSIDE = "5..30 vertices (identical per-edge algebra, but the solver verdict co
 ASSUMPTIONS = ["solver contract: returns dx with H dx = rhs (nonsingular case)", "information symmetric", "connected + >=1 fixed + SPD information => unique minimiser (convexity argument)"]
 
 
-def _build(P, g, dim, nv, edges, fixed):
+def _build(P, g, dim, nv, edges, fixed, shared=False):
     kind = "R%d" % dim
-    verts = [g.Vertex(i, mk_pose(P, g, kind, "x%d" % i), fixed=(i in fixed)) for i in range(nv)]
+    if shared:
+        # every vertex starts at the same point and all poses are built from ONE array (PoseRn(arr) is a view of arr)
+        import numpy
+
+        start = P.vector("start", dim)
+        keep = numpy.array(start, copy=True)
+        cls = g.PoseR2 if dim == 2 else g.PoseR3
+        verts = [g.Vertex(i, cls(start), fixed=(i in fixed)) for i in range(nv)]
+        verts[0]._shared_start = (start, keep)
+    else:
+        verts = [g.Vertex(i, mk_pose(P, g, kind, "x%d" % i), fixed=(i in fixed)) for i in range(nv)]
     eobjs, model = [], []
     for k, (typ, a, b) in enumerate(edges):
         om = P.sym_matrix("om%d" % k, dim, psd=True)
@@ -54,11 +64,11 @@ def _ref(P, dim, model, X):
     return chi, grad
 
 
-def _case(dim, nv, edges, fixed, ff):
+def _case(dim, nv, edges, fixed, ff, shared=False):
     def fn(P, g):
         np = P.np
         env = install_stubs(P, g, solver=contract_solver(P) if P.symbolic else None)
-        graph, verts, model = _build(P, g, dim, nv, edges, fixed)
+        graph, verts, model = _build(P, g, dim, nv, edges, fixed, shared)
         init = [v.pose.to_array() for v in verts]
         eff = set(fixed) | ({0} if ff else set())
         import warnings
@@ -73,6 +83,9 @@ def _case(dim, nv, edges, fixed, ff):
                 P.check_eq("fixed_unchanged_%d" % i, verts[i].pose.to_array(), init[i])
             else:
                 P.check_eq("stationary_%d" % i, grad[i], [0.0] * dim)
+        if shared:
+            start, keep = verts[0]._shared_start
+            P.check_eq("callers_array_untouched", start, keep)
         P.check_eq("final_chi2_is_reference", res.final_chi2, chi)
         chi0, _ = _ref(P, dim, model, [[p[i] for i in range(dim)] for p in init])
         P.check_eq("initial_chi2_is_reference", res.initial_chi2, chi0)
@@ -135,4 +148,5 @@ def cases(tier):
             if _name(t) not in seen:
                 seen.add(_name(t))
                 topo.append(t)
-    return [Case(_name(t), _case(*t), timeout=60 if tier == "quick" else 300, old_timeout=60 if tier == "quick" else 300, validate=2, feas_timeout_ms=2000, shards=2 if t[1] >= 3 else 1) for t in topo]
+    shared_cases = [Case("shared-start-" + _name(t), _case(*t, shared=True), timeout=60, old_timeout=60, validate=2, feas_timeout_ms=2000) for t in (TOPO_QUICK[1], TOPO_QUICK[2], TOPO_QUICK[6])]
+    return shared_cases + [Case(_name(t), _case(*t), timeout=60 if tier == "quick" else 300, old_timeout=60 if tier == "quick" else 300, validate=2, feas_timeout_ms=2000, shards=2 if t[1] >= 3 else 1) for t in topo]
